@@ -4,6 +4,7 @@ import (
 	"go/ast"
 	"go/token"
 	"go/types"
+	"reflect"
 )
 
 // fieldInfo holds information about a struct field for code generation.
@@ -33,7 +34,12 @@ func (t *Transformer) transformStruct(ws *WireStruct, pkg *types.Package) *Kesso
 	// Collect fields to include (skip unexported fields from external packages)
 	allFields := len(ws.Fields) > 0 && ws.Fields[0] == "*"
 	var fieldInfos []fieldInfo
-	for field := range st.Fields() {
+	for i := range st.NumFields() {
+		field := st.Field(i)
+		// "*" means every field that is not tagged `wire:"-"`
+		if allFields && reflect.StructTag(st.Tag(i)).Get("wire") == "-" {
+			continue
+		}
 		if allFields || contains(ws.Fields, field.Name()) {
 			// Skip unexported fields from external packages
 			if isExternalPkg && !field.Exported() {
